@@ -100,7 +100,7 @@ def vec_plan(Query, pid, tier):
             q += vec_queries(Query, TRAIT_OPS, [vec_cfg(1, 2, 'X', ak=2, cls=0), vec_cfg(1, 2, 'X', ak=2, cls=1)])
         elif pid == 'C02':
             q += vec_queries(Query, MUTATING, [vec_cfg(1, 2, 'X', ak=2, cls=0), vec_cfg(1, 2, 'X', ak=2, cls=1), vec_cfg(1, 3, 'R', ak=0)])
-            q += vec_queries(Query, TRAIT_OPS, [vec_cfg(2, 3, 'X'), vec_cfg(0, 0, 'X', ak=1, s='uint32_t')])
+            q += vec_queries(Query, TRAIT_OPS, [vec_cfg(2, 3, 'X'), vec_cfg(0, 0, 'X', ak=1, s='uint32_t', cls=0), vec_cfg(0, 0, 'X', ak=1, s='uint32_t', cls=1)])
         elif pid == 'C05':
             q += vec_queries(Query, NONINPUT_OPS, [vec_cfg(1, 2, 'B', cls=0), vec_cfg(1, 3, 'R', cls=0), vec_cfg(2, 3, 'B')])
             q += vec_queries(Query, VEC_OPS_BINARY + ['copy_ctor', 'move_ctor', 'shrink_to_fit', 'reserve'], [sv2B])
@@ -190,25 +190,22 @@ def ss_queries(Query, ops, cfgs, timeout=600, mem_gb=6):
 
 def smallset_plan(Query, pid, tier):
     quick = tier == 'quick'
-    def forms(cfgs, n):
+    def forms(cfgs, fs):
         out = []
         for c in cfgs:
-            for f in range(n):
+            for f in fs:
                 d = dict(c); d['SS_FORM'] = f; out.append(d)
         return out
     flat = [ss_cfg(2, 0, 0, 0), ss_cfg(2, 0, 0, 1)]
     if not quick: flat += [ss_cfg(3, 0, 1, 0), ss_cfg(3, 0, 1, 1), ss_cfg(1, 0, 0, 0), ss_cfg(1, 0, 0, 1)]
-    std = [ss_cfg(1, 1, 0, 0, lmax=2), ss_cfg(1, 1, 0, 1, lmax=2)]
-    if not quick: std += [ss_cfg(2, 1, 0, 0, lmax=3)]
     simple = ['lookup', 'erase_key', 'erase_it', 'erase_loop', 'clear'] + (['copy_move'] if pid == 'C04' else [])
     q = ss_queries(Query, simple, flat)
-    q += ss_queries(Query, ['insert'], forms(flat, 4), timeout=900, mem_gb=8)
+    # insert: the inline -> large crossing runs FlatSet's bulk insert: 270-290 s and 11-14 GB per overload on the pinned tree
+    q += ss_queries(Query, ['insert'], forms(flat[:2], (0, 2) if quick else (0, 1, 2, 3)) + ([] if quick else forms(flat[2:], (0,))), timeout=1200, mem_gb=14)
     if pid == 'C04':
-        q += ss_queries(Query, ['node'], forms(flat[:2], 4), timeout=900, mem_gb=8)
-        q += ss_queries(Query, SS_BIN, [ss_cfg(2, 0, 0, a, b) for a in (0, 1) for b in (0, 1)])
-        if not quick: q += ss_queries(Query, ['insert_range', 'merge'], flat[:2], timeout=1800, mem_gb=12)
-    q += ss_queries(Query, ['lookup', 'erase_key', 'erase_it', 'erase_loop', 'clear'], std, timeout=900, mem_gb=10)
-    q += ss_queries(Query, ['insert'], forms(std, 4) if not quick else forms(std, 1), timeout=900, mem_gb=10)
+        q += ss_queries(Query, ['node'], forms(flat[:1], (0,)) if quick else forms(flat[:2], (0, 1, 2, 3)), timeout=1200, mem_gb=8)
+        q += ss_queries(Query, ['swap'], [ss_cfg(2, 0, 0, a, b) for a in (0, 1) for b in (0, 1)])
+        q += ss_queries(Query, ['compare'], [ss_cfg(2, 0, 0, 0, 0)] + ([] if quick else [ss_cfg(2, 0, 0, 1, 1), ss_cfg(2, 0, 0, 1, 0)]), timeout=1200, mem_gb=6)
     return q
 
 def flatset_plan(Query, pid, tier):
@@ -247,6 +244,46 @@ def plan(pid, tier, Query):
         grow_ops = ['push_back_copy', 'push_back_move', 'emplace_back', 'insert_one_copy', 'insert_one_move', 'emplace', 'insert_n', 'insert_range_ptr', 'insert_range_fwd',
                     'append_range_ptr', 'assign_range_fwd', 'insert_il', 'resize', 'resize_val', 'assign_n', 'reserve', 'append_n', 'append_n_val', 'access']
         return limit_queries(Query, tier) + vec_queries(Query, grow_ops, fcv) + vec_queries(Query, ['access'], [vec_cfg(1, 2, 'B'), vec_cfg(0, 0, 'B', s='uint32_t')])
+    if pid == 'C16':
+        qs = []
+        base = dict(std='c++17', opt='-O1', ndebug=True, nonstd=True)
+        pairs = [('cxx11', dict(std='c++11')), ('cxx14', dict(std='c++14')), ('cxx20', dict(std='c++20')), ('pedantic', dict(nonstd=False)), ('asserts', dict(ndebug=False)), ('O2', dict(opt='-O2')), ('O0', dict(opt='-O0'))]
+        OPS = {0: 'insert_n', 1: 'erase', 2: 'resize', 3: 'assign', 4: 'shrink', 5: 'pop_reserve', 6: 'emplace', 7: 'copy_swap'}
+        # (container kind, element, operation, fixed number of initial push_backs, configuration pair)
+        if quick:
+            jobs = [(1, 'B', op, k, nm) for op in (0, 1, 6) for k in (2, 4) for nm in ('cxx11', 'asserts')] + [(1, 'B', 0, 3, nm) for nm in ('cxx14', 'cxx20', 'pedantic', 'O2')] + \
+                   [(1, 'X', 0, 2, 'cxx11'), (1, 'X', 1, 4, 'cxx20'), (0, 'B', 3, 2, 'cxx11'), (0, 'B', 4, 3, 'cxx20'), (3, 'B', 0, 3, 'cxx11'), (3, 'B', 1, 3, 'asserts'), (2, 'B', 0, 2, 'cxx11')]
+        else:
+            jobs = [(kd, 'B', op, k, nm) for kd in (0, 1, 2) for op in range(8) for k in (0, 2, 3, 4) for nm, _ in pairs] + \
+                   [(1, 'X', op, k, nm) for op in (0, 1, 3, 6) for k in (2, 4) for nm in ('cxx11', 'cxx20', 'asserts')] + [(3, 'B', op, k, nm) for op in range(4) for k in (1, 3) for nm, _ in pairs]
+        alts = dict(pairs)
+        for kind, e, op, k, nm in jobs:
+            alt = alts[nm]
+            d = {'MS_KIND': kind, 'MS_E': e, 'MS_KFIX': k, 'MS_OP': op}
+            if e == 'B' and kind != 3: d['MS_LESS'] = ''
+            if e == 'X': d['VF_NID'] = 32
+            qs.append(Query('miter.%s_%s_%s_k%d.cxx17_vs_%s' % (['vec', 'sv3', 'fcv4', 'flatset'][kind], e, OPS[op] if kind != 3 else ['hint', 'erase', 'lookup', 'copy_swap'][op], k, nm),
+                            'miter_script.cpp', 'h_script', defs=d, miter=alt,
+                            arena=(4, 32 if e == 'B' else 128), unwind=12, timeout=900, mem_gb=6, object_bits=10 if alt.get('opt') == '-O0' else None,
+                            extra_cbmc=('-DVF_MITER',), symbolic='values of the initial push_backs, position, count, value (operation and number of pushes fixed per query)',
+                            bounds=dict(initial_pushes=k, count_max=3, configurations='c++17 -O1 NDEBUG NONSTD  vs  %s' % alt)))
+        return qs
+    if pid == 'C20':
+        qs = []
+        def rq(name, entry, d, **kw):
+            qs.append(Query(name, 'race_ops.cpp', entry, defs=d, hooks=('stores',), arena=(4, 16), unwind=10, timeout=600, mem_gb=5,
+                            symbolic='container state (class, size, capacity, contents), arguments, choice of mutating operation',
+                            bounds=dict(size_max=4, note='every store of the lowered code is checked against the registered shared regions'), **kw))
+        for k, nm in ((0, 'vec'), (1, 'sv2'), (2, 'fcv3')):
+            for cls in ((0, 1) if k != 2 else (0,)):
+                d = {'RC_KIND': k, 'RC_CLS': cls}
+                rq('race_const.%s_%s' % (nm, 'IH'[cls]), 'h_vec_const', d)
+                rq('race_const_binary.%s_%s' % (nm, 'IH'[cls]), 'h_vec_const_binary', d)
+                rq('race_mutate_other.%s_%s' % (nm, 'IH'[cls]), 'h_vec_mutate_other', d)
+        rq('race_const.flatset_H', 'h_fs_const', {'RC_KIND': 3, 'RC_CLS': 1})
+        rq('race_const.flatset_Z', 'h_fs_const', {'RC_KIND': 3, 'RC_CLS': 0})
+        rq('race_const.smallset_inline', 'h_ss_const', {'RC_KIND': 4})
+        return qs
     if pid == 'C15':
         qs = []
         stds = ['c++11', 'c++14', 'c++17', 'c++20']
